@@ -446,4 +446,33 @@ theorem splitIndices_offsets (d b : Nat) (h : 0 < b ∧ b < d) :
   simp only [Function.comp, Nat.succ_eq_add_one, Nat.zero_add]
   rw [Int.natCast_mul]; simp
 
+/-! ### `to_pad = -n % d` (assign-pattern rule) -/
+
+theorem toPad_eq_emod (n D : Nat) : Gen.toPad (n : Int) (D : Int) = (-(n : Int)) % (D : Int) := by
+  unfold Gen.toPad
+  exact Int.fmod_eq_emod_of_nonneg _ (by omega)
+
+theorem toPad_spec (n D : Nat) (hD : 0 < D) :
+    0 ≤ Gen.toPad (n : Int) (D : Int) ∧ Gen.toPad (n : Int) (D : Int) < (D : Int) ∧
+      (D : Int) ∣ (n : Int) + Gen.toPad (n : Int) (D : Int) := by
+  rw [toPad_eq_emod]
+  have hD' : (0 : Int) < (D : Int) := by omega
+  refine ⟨Int.emod_nonneg _ (by omega), Int.emod_lt_of_pos _ hD', ?_⟩
+  refine ⟨-((-(n : Int)) / (D : Int)), ?_⟩
+  rw [Int.emod_def, Int.mul_neg]
+  omega
+
+theorem toPad_minimal (n D : Nat) (hD : 0 < D) (r : Int) (hr : 0 ≤ r) (hdvd : (D : Int) ∣ (n : Int) + r) :
+    Gen.toPad (n : Int) (D : Int) ≤ r := by
+  rw [toPad_eq_emod]
+  have hD' : (0 : Int) < (D : Int) := by omega
+  obtain ⟨k, hk⟩ := hdvd
+  have h1 : (-(n : Int)) % (D : Int) = r % (D : Int) := by
+    have : -(n : Int) = r + (D : Int) * (-k) := by rw [Int.mul_neg]; omega
+    rw [this, Int.add_mul_emod_self_left]
+  rw [h1]
+  have h2 : 0 ≤ (D : Int) * (r / (D : Int)) := Int.mul_nonneg (by omega) (Int.ediv_nonneg hr (by omega))
+  rw [Int.emod_def]
+  omega
+
 end PrecondVerif.GenBridge
